@@ -46,6 +46,9 @@ func main() {
 	tags := flag.String("tags", "verif", "build tags")
 	tier := flag.Int("tier", 0, "0 quick, 1 thorough (read by harnesses through vTier())")
 	specFile := flag.String("spec", "", "JSON file: list of {harness, only, unwind, max_paths, timeout_ms, tier, concrete}")
+	dumpSSA := flag.String("dump-ssa", "", "print the SSA of these functions/methods (comma-separated, e.g. mLogStore.GetLog) and exit")
+	progress := flag.Bool("progress", false, "print progress to stderr every 10 s")
+	maxSeconds := flag.Int("max-seconds", 0, "wall-clock budget per harness (exceeding it = path limit = inconclusive)")
 	stopFirst := flag.Bool("stop-at-first", false, "stop at first violation")
 	flag.Parse()
 
@@ -88,6 +91,16 @@ func main() {
 	pkg := spkgs[0]
 	o.LoadSecs = time.Since(t0).Seconds()
 
+	if *dumpSSA != "" {
+		for _, n := range strings.Split(*dumpSSA, ",") {
+			for fn := range ssautil.AllFunctions(prog) {
+				if fn.Pkg == pkg && (fn.Name() == n || strings.HasSuffix(fn.String(), "."+n) || strings.HasSuffix(fn.String(), ")."+n)) {
+					fn.WriteTo(os.Stdout)
+				}
+			}
+		}
+		return
+	}
 	type specT struct {
 		Harness   string   `json:"harness"`
 		Only      []string `json:"only"`
@@ -98,6 +111,7 @@ func main() {
 		Concrete  int      `json:"concrete"`
 		DumpMax   int      `json:"dump_max"`
 		MaxSteps  int      `json:"max_steps"`
+		MaxSeconds int     `json:"max_seconds"`
 	}
 	var specs []specT
 	if *specFile != "" {
@@ -130,7 +144,10 @@ func main() {
 	for _, sp := range specs {
 		h := sp.Harness
 		opt := sym.Options{Harness: h, Only: sp.Only, Unwind: sp.Unwind, MaxPaths: sp.MaxPaths, TimeoutMs: sp.TimeoutMs, MaxSteps: sp.MaxSteps,
-			Workers: *workers, Seed: *seed, DumpDir: *dump, DumpMax: sp.DumpMax, Verbose: *verbose, StopAtFirst: *stopFirst, Tier: sp.Tier}
+			Workers: *workers, Seed: *seed, DumpDir: *dump, DumpMax: sp.DumpMax, Verbose: *verbose, StopAtFirst: *stopFirst, Tier: sp.Tier, Progress: *progress, MaxSeconds: sp.MaxSeconds}
+		if opt.MaxSeconds == 0 {
+			opt.MaxSeconds = *maxSeconds
+		}
 		if sp.Concrete > 0 {
 			agg := &sym.HarnessResult{Harness: h, Statuses: map[string]int{}, Asserts: map[string]*sym.AssertStat{}, Covers: map[string]int{}}
 			for i := 0; i < sp.Concrete; i++ {
